@@ -52,6 +52,18 @@ impl Group for C11Sim {
             let mem = view(&sim.node(), true);
             if out == Outcome::Ok && mem != before_view { kinds_changed.insert(kind.to_string()); n_changed += 1; }
             if !matches!(out, Outcome::Panic(_)) {
+                if op != "restart" {
+                    // crash point between prepare() and commit()
+                    match sim.restore_shadow_crash() {
+                        Err(e) => co.violations.push(Violation { kind: "restore-failed:prepare-commit".into(), desc: format!("after {}: {}", op, e), at: i }),
+                        Ok(shadow) => {
+                            let d = diff_views(&mem, &view(&shadow, true));
+                            if !d.is_empty() {
+                                co.violations.push(Violation { kind: format!("not-durable-at-prepare:{}", kind), desc: format!("after {} ({}) a signer restarted from the local store plus the mutations reported by prepare() differs in {:?}", op, out.class(), d), at: i });
+                            }
+                        }
+                    }
+                }
                 match sim.restore_shadow() {
                     Err(e) => co.violations.push(Violation { kind: "restore-failed".into(), desc: format!("after {}: {}", op, e), at: i }),
                     Ok(shadow) => {
